@@ -34,14 +34,16 @@ def shard(arg):
     count = 0
     ctier = "small" if tier == "quick" else "quick"
     for it in corpus.items(ctier, shard=(k, n), kinds=("stmt", "inh", "ctx")):
-        env, gm, data = it.make()
+        env, gm, data = corpus.safe_make(it)
         ref = corpus.outcome(lambda: gm().render(**data))
         p.evals += 1
         p.sig((it.kind, str(ref)[:24]))
         for zmode in ((None, "deflated") if tier == "quick" else (None, "stored", "deflated")):
             count += 1
             target = os.path.join(root, f"t{count}" + ("" if zmode is None else ".zip"))
-            cenv, _, _ = it.make()
+            cenv, _, _ = corpus.safe_make(it)
+            if cenv is None:
+                continue
             try:
                 cenv.compile_templates(target, zip=zmode, ignore_errors=True, log_function=lambda m: None)
             except Exception as e:  # noqa: BLE001
@@ -51,8 +53,10 @@ def shard(arg):
             for mode in ("module", "choice"):
                 ml = jinja2.ModuleLoader(target)
                 loader = ml if mode == "module" else jinja2.ChoiceLoader([ml, jinja2.DictLoader(dict(it.sources))])
-                menv, mgm, mdata = it.make(loader=loader)
-                got = corpus.outcome(lambda: mgm().render(**mdata))
+                def via_modules():
+                    menv, mgm, mdata = it.make(loader=loader)  # may already load templates (objects passed as data)
+                    return mgm().render(**mdata)
+                got = corpus.outcome(via_modules)
                 p.evals += 1
                 ok = got == ref
                 if not ok and mode == "module" and isinstance(ref, tuple) and ref[1] in ("TemplateSyntaxError", "TemplateAssertionError"):
